@@ -81,6 +81,8 @@ def solve_and_judge(case, which, in_situ=True):
         rec.count('models.judged.with_three_asset_portfolio')
     if case.get('build_opts', {}).get('codes'):
         rec.count('models.judged.with_prefix_related_market_codes_and_household_in_both')
+    if any(z.get('cross_buy') for z in spec['zones']):
+        rec.count('models.judged.with_households_buying_in_another_regions_market')
     if getattr(b, 'predeclared_lag', 0):
         rec.count('models.judged.with_holder_declaring_its_own_lagged_deposits')
     if getattr(b, 'weightings_reused', 0):
@@ -163,7 +165,8 @@ class C01(object):
                          'models.judged.with_prefix_related_market_codes_and_household_in_both',
                          'models.judged.with_capitalists_in_several_regions_of_a_zone',
                          'models.judged.with_three_asset_portfolio',
-                         'models.judged.with_holder_declaring_its_own_lagged_deposits')
+                         'models.judged.with_holder_declaring_its_own_lagged_deposits',
+                         'models.judged.with_households_buying_in_another_regions_market')
     which = ('zone', 'ledger')
 
     def n_cases(self, tier):
